@@ -14,8 +14,10 @@ CONSTANTS
   Kinds = {"alterDatabase", "createIndex", "alterIndex", "loadPartitions"}
   WithFail = TRUE
   WithInflight = TRUE
+  WithSwap = TRUE
   WithRestart = TRUE
   AlterDbChecked = FALSE
   AlterIdxRecheck = FALSE
   DropGuarded = FALSE
+  CreateFromDrop = TRUE
   TabT = {0, 1, 2, 3}
